@@ -50,7 +50,8 @@ type tsTSTInfo struct {
 }
 
 type tsStatusInfo struct {
-	Status int
+	Status   int
+	FailInfo asn1.BitString `asn1:"optional"`
 }
 
 type tsResponse struct {
@@ -112,6 +113,7 @@ type TSATokenSpec struct {
 	Embed           []*x509.Certificate
 	Status          int
 	NoToken         bool
+	FailBadAlg      bool // rejection carries failInfo badAlg
 	WrongDigest     bool
 	WrongAlg        bool
 	NonceMode       int // 0 echo, 1 wrong, 2 omit
@@ -137,7 +139,11 @@ func hashOIDFor(h crypto.Hash) asn1.ObjectIdentifier {
 // BuildTSAResponse returns the DER TimeStampResp and the DER token (ContentInfo).
 func BuildTSAResponse(s *TSATokenSpec) (resp []byte, token []byte) {
 	if s.NoToken || s.Status >= 2 {
-		return mustMarshal(tsResponse{Status: tsStatusInfo{Status: s.Status}}), nil
+		si := tsStatusInfo{Status: s.Status}
+		if s.FailBadAlg {
+			si.FailInfo = asn1.BitString{Bytes: []byte{0x80}, BitLength: 1} // badAlg (bit 0)
+		}
+		return mustMarshal(tsResponse{Status: si}), nil
 	}
 	imp := s.Req.MessageImprint
 	if s.WrongDigest {
